@@ -1290,7 +1290,6 @@ impl<B: Buf> SendResponse<B> {
             .map(|inner| SendPushedResponse {
                 inner: SendResponse { inner },
             })
-            .map_err(Into::into)
     }
 
     /// Send a stream reset to the peer.
